@@ -18,7 +18,8 @@ LEVEL_TEXT = ("never_overcommits, released_on_close_or_abort and readonly_accept
               "container bytes of seeded histories over random capacities, reserved_space settings and read-only servers.")
 LEVEL_NOTE = ("Lean kernel + standard axioms; model hand-written, tied by correspondence; the model contains the repair "
               "fixes/C28-readonly.diff (a read-only server refuses zero-size shares too).")
-RULE = ("seeded histories (10-40 ops) against a real StorageServer with simulated disk free space 0..250 per call, "
+RULE = ("seeded histories (10-40 ops) against a real StorageServer with a simulated disk (os.statvfs record: f_bavail 0..250 "
+        "per call, f_frsize 1/2/4/8 with f_bsize equal, larger, smaller or 0; fixed corpus with 4096/1MiB, 4096/64KiB, 512/4096), "
         "reserved_space in {0,10,60,1000}, 1 in 4 servers read-only; a case is one operation; distinct = distinct "
         "(configuration, history prefix digest, op); non-trivial = allocate_buckets calls and every op while an upload is in progress")
 TRUSTED = ["lean/Tahoe/Storage/Immutable.lean is a hand transcription of storage/immutable.py and the immutable part of storage/server.py",
@@ -61,29 +62,48 @@ def free_fn(rng):
     return rng.choice([0, 5, 20, 40, 59, 60, 61, 100, 150, 250, 10 ** 6])
 
 
+# seeded C28-e: statvfs geometries (f_frsize, f_bsize); the `free` field of an allocation is f_bavail in
+# fragments, the bytes really free are f_bavail * f_frsize whatever f_bsize says.
+# (readonly, reserved_space, (f_frsize, f_bsize), ops)
+CORPUS_GEO = [
+    (False, 1000, (4096, 4096), [["A", 0, [0, 1, 2], 5000, 0, 3], ["S"], ["C", 0], ["A", 0, [2], 5000, 0, 3], ["S"]]),
+    (False, 1000, (4096, 1048576), [["A", 0, [0, 1, 2], 5000, 0, 3], ["S"], ["X", 0], ["A", 1, [0, 1], 5000, 1, 3], ["S"]]),
+    (False, 0, (4096, 65536), [["A", 0, [0, 1], 4000, 0, 1], ["S"], ["A", 1, [0], 97, 0, 1], ["S"]]),
+    (False, 0, (512, 4096), [["A", 0, [0, 1, 2], 2000, 0, 10], ["S"], ["A", 1, [0, 1], 600, 1, 10, 1], ["K", 1], ["S"]]),
+    (False, 100, (4096, 0), [["A", 0, [0, 1], 4000, 0, 2], ["S"]]),
+    (True, 0, (4096, 1048576), [["A", 0, [0, 1], 0, 0, 3], ["A", 0, [0], 10, 0, 3], ["S"]]),
+]
+
+
 def run(ctx):
     n_hist = 0 if os.environ.get("VERIF_CORPUS_ONLY") else ctx.budget(160, 10000)
     cases = []
     if ctx.replay:
         c = ctx.replay["case"]
-        cases = [(c["readonly"], c["reserved"], c["ops"], True)]
+        cases = [(c["readonly"], c["reserved"], tuple(c.get("geo", (1, 1))), c["ops"], True)]
     else:
-        cases = [(ro, rs, ops, True) for (ro, rs, ops) in CORPUS]
+        cases = [(ro, rs, (1, 1), ops, True) for (ro, rs, ops) in CORPUS]
+        cases += [(ro, rs, geo, ops, True) for (ro, rs, geo, ops) in CORPUS_GEO]
         for i in range(n_hist):
             ro = ctx.rng.random() < 0.25
             rs = ctx.rng.choice([0, 0, 10, 60, 1000])
-            ops = U.gen_history(ctx.rng, ctx.rng.choice([10, 20, 40]), free_fn=free_fn,
+            geo = (1, 1)
+            if ctx.rng.random() < 0.4:
+                fr = ctx.rng.choice([1, 2, 4, 8])
+                geo = (fr, ctx.rng.choice([fr, fr * 4, fr * 16, max(1, fr // 2), 0]))
+            ops = U.gen_history(ctx.rng, ctx.rng.choice([10, 20, 40]), free_fn=(lambda r, fr=geo[0]: free_fn(r) // fr),
                                 sizes=(0, 0, 1, 5, 10, 20, 30, 40, 60), n_si=2, shnums=(0, 1, 2, 3, 8),
                                 foolscap=0.5)
-            cases.append((ro, rs, ops, False))
+            cases.append((ro, rs, geo, ops, False))
     lines, impl, recs = [], [], []
-    for ro, rs, ops, concrete in cases:
-        conc, line, out, viol = U.run_history(ctx, "C28", ops, readonly=ro, reserved=rs, concrete=concrete, sis=(0, 1))
+    for ro, rs, geo, ops, concrete in cases:
+        conc, line, out, viol = U.run_history(ctx, "C28", ops, readonly=ro, reserved=rs, concrete=concrete, sis=(0, 1), geo=geo)
+        ctx.count("statvfs:bsize==frsize" if geo[0] == geo[1] else "statvfs:bsize!=frsize")
         lines.append(line)
         impl.append(out)
-        case = {"readonly": ro, "reserved": rs, "ops": conc}
+        case = {"readonly": ro, "reserved": rs, "geo": list(geo), "ops": conc}
         recs.append(case)
-        h = hash((ro, rs))
+        h = hash((ro, rs, geo))
         inprog = False
         for o in conc:
             h = hash((h, repr(o)))
